@@ -339,8 +339,43 @@ func c13Common(c *h.Ctx, k *c13Case, smp map[string]interface{}) c13UUID {
 		}
 		c.Exec(2)
 	}
+	// P (history): one decoder object per type is REUSED from case to case (alternately through Unmarshal and
+	// FromString, with String()/Marshal() read after each): what it reports must be what a fresh object reports
+	r := c13Reused[k.K]
+	if r == nil {
+		r = c13New(k.K)
+		c13Reused[k.K] = r
+	}
+	c13ReuseN[k.K]++
+	var rerr error
+	how := "Unmarshal"
+	if c13ReuseN[k.K]%2 == 0 && lower != "" {
+		how = "FromString"
+		if p := h.Guard(func() { rerr = r.FromString(lower) }); p != "" {
+			rerr = fmt.Errorf("panic: %s", p)
+		}
+	} else if p := h.Guard(func() { _, rerr = r.Unmarshal(k.B) }); p != "" {
+		rerr = fmt.Errorf("panic: %s", p)
+	}
+	if rerr != nil {
+		c.Fail(typ+"."+how, "reused-object:error", fmt.Sprintf("a reused object rejects what a fresh one accepts: %v", rerr), smp)
+		c13Reused[k.K] = c13New(k.K)
+	} else {
+		rs := r.String()
+		rm, _ := r.Marshal()
+		c.Exec(3)
+		if !strings.EqualFold(rs, lower) {
+			c.Fail(typ+".String", "reused-object:text", fmt.Sprintf("after %s on a reused object: String() = %q, a fresh object gives %q", how, rs, lower), smp)
+		}
+		if !bytes.Equal(rm, k.B) {
+			c.Fail(typ+".Marshal", "reused-object:bytes", fmt.Sprintf("after %s on a reused object: Marshal() = %x, spec %x", how, rm, []byte(k.B)), smp)
+		}
+	}
 	return u
 }
+
+var c13Reused = map[string]c13UUID{}
+var c13ReuseN = map[string]int{}
 
 // aspect for a clock-sequence mismatch: the known shape (only the bits above `kept` are lost) is named separately
 func c13ClockAspect(prefix string, got, want, kept int, hi string) string {
